@@ -423,7 +423,56 @@ static void op_sniff(int argc, char** a)
 	printf("sniff=%d\n", is_lossless_compressed_data(b, n)); free(b);
 }
 
+
+/* ---------- C16 ---------- */
+static uint32_t fbits(float f) { uint32_t b; memcpy(&b, &f, 4); return b; }
+static void print_state(int ret)
+{
+	if (ret != SZ_SCES) { printf("ret=-1"); return; }
+	sz_params* c = confparams_cpr;
+	printf("ret=0 fields=%x,%x,%x,%x,%x,%x,", dataEndianType, c->sol_ID, c->max_quant_intervals, c->quantization_intervals, c->maxRangeRadius, fbits(c->predThreshold));
+	print_shex(c->sampleDistance); printf(",%x,%x,%x,", c->szMode, c->losslessCompressor, c->withRegression); print_shex(c->gzipMode);
+	printf(",%x,", c->protectValueRange); print_shex(c->randomAccess); printf(","); print_shex(c->snapshotCmprStep); printf(",%x,", c->errorBoundMode);
+	printf("%" PRIx64 ",%" PRIx64 ",%" PRIx64 ",%" PRIx64 ",%" PRIx64 ",", bits_of_dbl(c->absErrBound), bits_of_dbl(c->relBoundRatio), bits_of_dbl(c->psnr), bits_of_dbl(c->normErr), bits_of_dbl(c->pw_relBoundRatio));
+	print_shex(c->segment_size); printf(","); print_shex(c->accelerate_pw_rel_compression); printf(",%x,%x,%x,%x", c->pwr_type, exe_params->optQuantMode, exe_params->intvCapacity, exe_params->intvRadius);
+}
+/* a fixed array compressed with the defaults just initialised: digest of the stream */
+static void print_stream_digest(void)
+{
+	float d[600]; for (int i = 0; i < 600; i++) d[i] = sinf(i * 0.05f) * 10.0f + (float)((i * 7919) % 13) * 0.01f;
+	int m = confparams_cpr->errorBoundMode; if (m != ABS && m != REL && m != ABS_AND_REL && m != ABS_OR_REL) { printf(" cd=-"); return; }
+	if (!(confparams_cpr->absErrBound > 0) || !(confparams_cpr->relBoundRatio > 0) || confparams_cpr->sampleDistance <= 0 || !(confparams_cpr->predThreshold > 0) || confparams_cpr->predThreshold > 1) { printf(" cd=-"); return; }
+	size_t os = 0; unsigned char* b = SZ_compress(SZ_FLOAT, d, &os, 0, 0, 0, 20, 30);
+	uint64_t h = 1469598103934665603ULL; for (size_t i = 0; b && i < os; i++) { h ^= b[i]; h *= 1099511628211ULL; }
+	printf(" cd=%zx:%" PRIx64, os, h); if (b) free(b);
+}
+/* conf f <hex of the file text> | conf p <26 fields> | conf m */
+static void op_conf(int argc, char** a)
+{
+	SZ_Finalize();
+	int ret;
+	if (a[0][0] == 'f') {
+		FILE* f = fopen(cfg_path, "w"); const char* h = a[1];
+		for (size_t i = 0; h[i] && h[i + 1]; i += 2) { unsigned v; sscanf(h + i, "%2x", &v); fputc((int)v, f); }
+		fclose(f); ret = SZ_Init(cfg_path); unlink(cfg_path);
+	} else if (a[0][0] == 'm') {
+		unlink(cfg_path); ret = SZ_Init(cfg_path);
+	} else {
+		uint64_t* l; parse_list(a[1], &l); sz_params p; memset(&p, 0, sizeof p);
+		p.sol_ID = (int)l[1]; p.max_quant_intervals = (unsigned)l[2]; p.quantization_intervals = (unsigned)l[3]; p.maxRangeRadius = (unsigned)l[4];
+		{ uint32_t b = (uint32_t)l[5]; memcpy(&p.predThreshold, &b, 4); } p.sampleDistance = (int)l[6]; p.szMode = (int)l[7]; p.losslessCompressor = (int)l[8];
+		p.withRegression = (int)l[9]; p.gzipMode = (int)(int64_t)l[10]; p.protectValueRange = (int)l[11]; p.randomAccess = (int)l[12]; p.snapshotCmprStep = (int)l[13];
+		p.errorBoundMode = (int)l[14]; memcpy(&p.absErrBound, &l[15], 8); memcpy(&p.relBoundRatio, &l[16], 8); memcpy(&p.psnr, &l[17], 8); memcpy(&p.normErr, &l[18], 8);
+		memcpy(&p.pw_relBoundRatio, &l[19], 8); p.segment_size = (int)l[20]; p.accelerate_pw_rel_compression = (int)l[21]; p.pwr_type = (int)l[22]; p.plus_bits = 3;
+		ret = SZ_Init_Params(&p); free(l);
+	}
+	print_state(ret);
+	if (ret == SZ_SCES) print_stream_digest();
+	printf("\n");
+	SZ_Finalize(); SZ_Init(NULL);
+}
+
 struct op more_ops[] = {
-	{"rt", op_rt}, {"rtr", op_rtr}, {"fdim", op_fdim}, {"huff", op_huff}, {"rw", op_rw}, {"tr", op_tr}, {"lz", op_lz}, {"sniff", op_sniff}, {"ep", op_ep},
+	{"rt", op_rt}, {"rtr", op_rtr}, {"fdim", op_fdim}, {"huff", op_huff}, {"rw", op_rw}, {"tr", op_tr}, {"lz", op_lz}, {"conf", op_conf}, {"sniff", op_sniff}, {"ep", op_ep},
 	{NULL, NULL}
 };
